@@ -2,7 +2,7 @@
    backends offering the provider, and start-up fails exactly when a scheme is claimed twice. *)
 From Coq Require Import ZArith List Bool Lia Arith.
 From Common Require Import Res.
-From Routing Require Import Model.
+From Routing Require Import Model Scheme Obs Spec.
 Import ListNotations.
 Open Scope Z_scope.
 
@@ -55,23 +55,8 @@ Proof.
       * apply IH. repeat split; auto.
 Qed.
 
-(* ------------------------------------------------------------------ specification of the tables *)
 
-Fixpoint spec_table (flag : backend -> bool) (i : nat) (bs : list backend) : table :=
-  match bs with
-  | [] => []
-  | b :: r =>
-      (if b_info_ok b && flag b then map (fun s => (s, i)) (b_schemes b) else [])
-        ++ spec_table flag (S i) r
-  end.
 
-(* every scheme claimed by a backend whose start-up information could be fetched *)
-Definition live_schemes (bs : list backend) : list scheme :=
-  flat_map (fun b => if b_info_ok b then b_schemes b else []) bs.
-
-(* backend number i offers the provider selected by flag and registered scheme s *)
-Definition owns (flag : backend -> bool) (P : list backend) (i : nat) (s : scheme) : Prop :=
-  exists b, nth_error P i = Some b /\ b_info_ok b = true /\ flag b = true /\ In s (b_schemes b).
 
 Definition tables_spec (i : nat) (bs : list backend) (T T' : tables) : Prop :=
   t_lib T' = t_lib T ++ spec_table b_lib i bs /\
@@ -291,12 +276,6 @@ Proof.
   - apply Z.eqb_eq in E. split; [discriminate|intros H; exfalso; apply H; now left].
   - apply Z.eqb_neq in E. rewrite IH. split; [intros H [H'|H']; [congruence|auto]|tauto].
 Qed.
-
-Definition table_of (flag : backend -> bool) (T : tables) : table :=
-  if flag (mkB [] true true false false false (fun _ _ => RNone)) then t_lib T
-  else if flag (mkB [] true false true false false (fun _ _ => RNone)) then t_browse T
-  else if flag (mkB [] true false false true false (fun _ _ => RNone)) then t_playback T
-  else t_playlists T.
 
 Theorem tget_owner_gen flag P t :
   NoDup (live_schemes P) -> t = spec_table flag 0 P ->
